@@ -401,6 +401,12 @@ func raceCorpus(s *sharedState, yield bool) []raceOp {
 		`$.l[?(@.a == $.x)]`, `$.l[?($.x == 2)]`, `$.l[?($.x == 3)]`, `$.l[?(1 == 2)]`, `$.l[?(1 < $.x)]`, `$.l[?(3 < $.x)]`, `$.l[?(3 <= $.x)].a`, `$.l[?($.x > @.a)]`, `$.l[?(@.zz != $.zz)]`, `$.l[?(@.a =~ /a/)]`, `$.l[?(@.a == 1 || @.a == 3)]`,
 		`$.l[?(@.a > 1 && @.a < 4)]`, `$.l[?(@.a.twice() == 4)]`, `$.l[*].a.sum()`, `$..a.sum()`, `$.l[?(@.a)].a.sum().twice()`, `$.m.r[?(@ > 1)]`, `$.m..[?(@)]`, `$.l[?($)]`, `$.l[?(!$.nosuch)].a`,
 		`$.nosuch`, `$.l.a`, `$.x[0]`,
+		// operands that are absent for every member / absent `$` operands, with every validator type:
+		// these evaluations hand the package-level emptyList / fullList through the comparators
+		`$.l[?(@.zz == 'x')]`, `$.l[?(@.zz != 'x')].a`, `$.l[?(@.zz =~ /x/)]`, `$.l[?($.zz == 'x')]`, `$.l[?(@.zz == 1)]`, `$.l[?(@.zz > 1)]`, `$.l[?(@.zz == true)]`,
+		`$.l[?(@.zz == null)]`, `$.l[?($.zz =~ /x/)]`, `$.l[?($.zz > 1)]`, `$.l[?(@.zz == $.zz)].a`, `$.l[?(@.zz)]`, `$.l[?(!@.zz)].a`, `$.l[?($.zz || @.a == 1)]`, `$.l[?(!$.zz && @.a == 2)]`,
+		// failing calls of a shared function (the error path), several kinds
+		`$.l[99]`, `$.l[0].a.b`, `$.m.q.r`, `$.l[?(@.a > 99)]`, `$..zz`, `$.l[*].zz`,
 	}
 	for _, p := range paths {
 		f, err := jsonpath.Parse(p, cfg)
